@@ -54,37 +54,44 @@ Fixpoint chase (b : bpseq) (lc : list strand) (used loop : list strand) (i fuel 
       end
   end.
 
+Definition stops_of (stems_ : list (strand * strand)) : list nat :=
+  sort_nat (fold_right (fun x acc => if mem x acc then acc else x :: acc) []
+              (flat_map (fun s => [s_first (fst s) - 1; s_last (fst s) - 1; s_first (snd s) - 1; s_last (snd s) - 1]) stems_)).
+Definition cands_of (b : bpseq) (stops : list nat) : list (list entry) :=
+  map (fun ab => slice b (fst ab) (snd ab + 1)) (combine stops (tl stops)).
+Definition interior_unpaired (c : list entry) : bool := forallb (fun e => pair e =? 0) (removelast (tl c)).
+Definition is_hp (c : list entry) : bool := match c with e :: _ => pair e =? idx (last c e) | [] => false end.
+Definition ok_of (b : bpseq) (stops : list nat) : list (list entry) := filter interior_unpaired (cands_of b stops).
+Definition lc_of (b : bpseq) (db : list ascii) (stops : list nat) : list strand :=
+  map (fun c => strand_of c db) (filter (fun c => negb (is_hp c)) (ok_of b stops)).
+Definition loop_step (b : bpseq) (lc : list strand) (acc : list (list strand) * list strand) (i : nat) : list (list strand) * list strand :=
+  let '(loops, used) := acc in
+  match nth_error lc i with
+  | Some s0 =>
+      let loop := chase b lc used [s0] i (length lc) in
+      if (pair_of_idx b (s_first s0) =? s_last (last loop s0)) &&
+         negb (forallb (fun s => s_last s - s_first s <=? 1) loop)
+      then (loops ++ [loop], used ++ loop) else (loops, used)
+  | None => acc
+  end.
+Definition loops_of (b : bpseq) (lc : list strand) : list (list strand) * list strand :=
+  fold_left (loop_step b lc) (seq 0 (length lc)) ([], []).
+
 Definition elements (b : bpseq) (db : list ascii) : elements_t :=
   match stems b with
   | [] => {| el_stems := []; el_single := []; el_hairpins := []; el_loops := [] |}
   | sts =>
       let stems_ := map (stem_of b db) sts in
-      let stops := sort_nat (fold_right (fun x acc => if mem x acc then acc else x :: acc) []
-                      (flat_map (fun s => [s_first (fst s) - 1; s_last (fst s) - 1; s_first (snd s) - 1; s_last (snd s) - 1]) stems_)) in
+      let stops := stops_of stems_ in
       let n := length b in
       let stop0 := hd 0 stops in
       let stopl := last stops 0 in
       let five := if 0 <? stop0 then [(strand_of (firstn (stop0 + 1) b) db, true, false)] else [] in
-      let cands := map (fun ab => slice b (fst ab) (snd ab + 1)) (combine stops (tl stops)) in
-      let interior_unpaired (c : list entry) := forallb (fun e => pair e =? 0) (removelast (tl c)) in
-      let ok := filter interior_unpaired cands in
-      let is_hp (c : list entry) := match c with e :: _ => pair e =? idx (last c e) | [] => false end in
-      let hairpins := map (fun c => strand_of c db) (filter is_hp ok) in
-      let lc := map (fun c => strand_of c db) (filter (fun c => negb (is_hp c)) ok) in
+      let hairpins := map (fun c => strand_of c db) (filter is_hp (ok_of b stops)) in
+      let lc := lc_of b db stops in
       let three := if stopl <? n - 1 then [(strand_of (skipn stopl b) db, false, true)] else [] in
-      let '(loops, used) :=
-        fold_left (fun (acc : list (list strand) * list strand) i =>
-                     let '(loops, used) := acc in
-                     match nth_error lc i with
-                     | Some s0 =>
-                         let loop := chase b lc used [s0] i (length lc) in
-                         if (pair_of_idx b (s_first s0) =? s_last (last loop s0)) &&
-                            negb (forallb (fun s => s_last s - s_first s <=? 1) loop)
-                         then (loops ++ [loop], used ++ loop) else (loops, used)
-                     | None => acc
-                     end) (seq 0 (length lc)) ([], []) in
-      let rest := map (fun s => (s, false, false)) (filter (fun s => negb (existsb (strand_eqb s) used)) lc) in
-      {| el_stems := stems_; el_single := five ++ three ++ rest; el_hairpins := hairpins; el_loops := loops |}
+      let rest := map (fun s => (s, false, false)) (filter (fun s => negb (existsb (strand_eqb s) (snd (loops_of b lc)))) lc) in
+      {| el_stems := stems_; el_single := five ++ three ++ rest; el_hairpins := hairpins; el_loops := fst (loops_of b lc) |}
   end.
 
 (* without_isolated: unpair the stems of length 1 *)
